@@ -528,9 +528,15 @@ class BaseParser:
             for k, v in data.items():
                 k = str(k)
                 if k.lower() in self.case_insensitive_names:
-                    _data[k.lower()] = v
-                else:
-                    _data[k] = v
+                    k = k.lower()
+                    if k in _data and _data[k] != v and not context.options.ignore_alias_conflicts:
+                        # two letter-case variants of one name carry different values:
+                        # an alias conflict (as data_first_parse reports it), not a silent overwrite
+                        field = self.get_field(k)
+                        name = (field.attname if as_attname else field.name) if field else k
+                        context.handle_error(exc.AliasConflictError(item=name, value=v))
+                        continue
+                _data[k] = v
             data = _data
 
         result = {}
